@@ -202,7 +202,10 @@ def run_one(m):
         with open(p, "w", encoding="utf-8") as fh:
             fh.write(new)
         env = dict(os.environ, PYTHONPATH=tmp, PYTHONDONTWRITEBYTECODE="1")
-        rc, o = sh([PY, "-m", "pytest", "-q", "-p", "no:cacheprovider", "-x"], cwd=tmp, env=env, timeout=300)
+        if m.get("known_survivor"):
+            rc = 0          # the 63 tests were run on this mutant by an earlier sweep of the same tree (--survivors-of): not repeated
+        else:
+            rc, o = sh([PY, "-m", "pytest", "-q", "-p", "no:cacheprovider", "-x"], cwd=tmp, env=env, timeout=300)
         if rc != 0:
             return dict(id=m["id"], status="killed-by-tests")
         res = {}
@@ -229,6 +232,14 @@ def run(outdir, jobs):
         with open(rp, encoding="utf-8") as fh:
             done = {json.loads(l)["id"] for l in fh if l.strip()}
     todo = [m for m in muts if m["id"] not in done]
+    if "--survivors-of" in sys.argv:
+        prev = {}
+        with open(os.path.join(sys.argv[sys.argv.index("--survivors-of") + 1], "results.jsonl"), encoding="utf-8") as fh:
+            for l in fh:
+                if l.strip():
+                    r_ = json.loads(l)
+                    prev[r_["id"]] = r_["status"]
+        todo = [dict(m, known_survivor=True) for m in todo if prev.get(m["id"]) == "survivor"]
     with ProcessPoolExecutor(max_workers=jobs) as ex, open(rp, "a", encoding="utf-8") as out:
         for k, r in enumerate(ex.map(run_one, todo, chunksize=4)):
             out.write(json.dumps(r) + "\n")
